@@ -56,12 +56,14 @@ CLAIMS = {
          "regions: loop head, inductive step for an arbitrary region and arbitrary accumulators, and the code after the loop for an "
          "arbitrary scan result; unrolled N<=2 instances cross-check the cut points. LR_abt/SPSR_abt of the abort entry are C11.",
          "DESIGN.md 10 C14, 14"),
- 'C15': ("translate_address_v with FCSE translation, the Short-descriptor walk (TTBR0/TTBR1 split by TTBCR.N, PD0/PD1, sections, "
-         "supersections with 40-bit output, large and small pages, SCTLR.EE descriptor endianness), TEX remap (PRRR/NMRR), the "
-         "access-flag, domain (DACR) and AP/APX permission checks, DFSR/DFAR reporting and the MMU-off flat map, all interpreted from the "
-         "real source over an abstract physical memory (arbitrary table contents) against the B3.19 pseudocode for every register "
-         "setting, address, privilege and direction. NOT covered (stated scope): the Long-descriptor walk, Hyp mode, stage 2 "
-         "(Virtualization Extensions), SCTLR.HA; with SCTLR.TRE == 0 the implementation stops at a mock hook (NotImplementedError).",
+ 'C15': ("translate_address_v with FCSE translation interpreted from the real source over an abstract physical memory (arbitrary table "
+         "contents) against the B3.19 pseudocode, two units: (1) Short-descriptor walk (TTBR0/TTBR1 split by TTBCR.N, PD0/PD1, sections, "
+         "supersections with 40-bit output, large and small pages, SCTLR.EE), TEX remap (PRRR/NMRR), access-flag, domain (DACR) and "
+         "AP/APX checks, DFSR/DFAR reporting, and the MMU-off flat map; (2) Long-descriptor stage-1 walk outside Hyp mode (TTBR0/TTBR1 by "
+         "T0SZ/T1SZ, EPD0/1, start level, up to three levels with hierarchical APTable/XNTable/PXNTable/NSTable, blocks and pages, access "
+         "flag, AP, MAIR memory type, SH) incl. termination of the lookup loop; for every register setting, address, privilege, direction. "
+         "NOT covered (stated scope): Hyp mode, stage 2 / Virtualization Extensions, SCTLR.HA; Long-descriptor fault *reporting* stops at a "
+         "mock hook (NotImplementedError), so there only 'a fault is raised exactly when specified' is proved; SCTLR.TRE == 0 likewise.",
          "DESIGN.md 14.13"),
  'C16': ("MemoryControllerHub.__getitem__/__setitem__ with MemoryController/RAM/to_int/from_int inlined, over controller lists of "
          "length 0..3 (thorough 0..5) with symbolic bounds, sizes and contents and an arbitrary 40-bit address: little-endian value of "
